@@ -97,7 +97,22 @@ pub fn check(case: &Case) -> Verdict {
                 fail!("{}: {}: same unit but {} gives {} (amounts: {})", tname, case.note, name, amt::show(r.0), amt::show(own));
             }
         } else {
-            match amt::sum_within(r.0, &ra, &[&rb, sb, &sa_inv], subtract, 1) {
+            let exact_sum = if subtract { ma.sub(&mb) } else { ma.add(&mb) }.mul(&sa_inv);
+            let xl = if ra.is_zero() { 0 } else { ra.log2_floor() };
+            let w = match amt::product_budget_reps(&[&rb, sb, &sa_inv], &[sa, sb]) {
+                None => Within::OutOfModel,
+                Some(_) if cfg!(not(feature = "dec")) && xl.abs() > 960 => Within::OutOfModel,
+                Some(by) => {
+                    // f64: the final addition rounds once more, relative to |a| + |b'|
+                    let bud = if cfg!(feature = "dec") {
+                        by
+                    } else {
+                        ra.abs().add(&mb.mul(&sa_inv).abs()).mul(&amt::Budget::rel())
+                    };
+                    if amt::close(r.0, &exact_sum, &bud, 1) { Within::Yes } else { Within::No }
+                }
+            };
+            match w {
                 Within::No => fail!(
                     "{}: {}: {} gives {}; exact {}",
                     tname, case.note, name, amt::show(r.0),
@@ -139,7 +154,7 @@ pub fn check(case: &Case) -> Verdict {
                 let s_ab = sa.div(sb);
                 let a_in_b = ma.div(sb);
                 let ab = ra.div(&rb);
-                let inter: Vec<&Rat> = vec![&ra, &rb, &s_ba, &s_ab, &d_in_a, &a_in_b, &ma, &mb, &ab];
+                let inter: Vec<&Rat> = vec![&ra, &rb, &s_ba, &s_ab, &d_in_a, &a_in_b, &ma, &mb, &ab, sa, sb];
                 match amt::budget_with(&exact, &inter) {
                     None => ratio_class = "extreme",
                     Some(bud) => {
